@@ -29,6 +29,9 @@ strictly below the selection, or the selected non-directory itself, minus the
 paths special to the format) and compared as a set with what was extracted:
 names under the root, kinds, contents (after the per-file filter), executable
 bits, link targets (zip: `<name>.lnk` text members, as the exporter documents).
+Families: only `zip-symlink-lnk-name-collision` (known finding) is classified; the
+defects fixed by commits 7bb265d (zip exec bit) and c02101e (ContentFilterTree
+delegation) are plain violations if they return ("fix reverted" mutants checked).
 
 Mutants this was built against (scratch worktrees):
  * `path.startswith(subdir + "/")` -> `path.startswith(subdir)` (sibling `ab` of
